@@ -1,8 +1,1225 @@
-//! `lockfmt` driver (stub; see DESIGN.md).
+//! `lockfmt` driver (C17, "one owner at a time"): drives `DB::open`, `Drop for DB` and
+//! `DB::destroy_database` of the real raindb on ONE path of a DISK-backed filesystem
+//! (`OsFileSystem` / `TmpFileSystem`; the in-memory filesystem does not enforce locks) from
+//! several threads and records what every call returned.  The recorded trace is judged by
+//! `spec/RainLock_Trace.tla`; this driver never decides anything itself.
+//!
+//! Trace vocabulary (ndjson, one line per event, field `i` = global sequence number taken under
+//! the one mutex of `Log`, so the line order IS the order of the call / return instants):
+//!
+//!   Reset   {run, seed, tag, nk:0, driver:"lockfmt"}          first event of every run
+//!   Round   {n, kind}                                          start of a scenario (no effect)
+//!   Call    {c, t, op:"open"|"close"|"destroy"|"probe", h, k}  a database call starts
+//!   Ret     {c, t, op, h, ok, lockerr, err, got, lo, vals}     ... and has returned
+//!   Gate    {c, held, pre, point}   forced schedules: call `c` is parked at a filesystem call /
+//!                                   hook (`held` true) resp. let go again (`held` false);
+//!                                   `pre` = the parking point precedes every lock operation of
+//!                                   the call, otherwise it follows the call's successful try-lock
+//!   Listing {files}                 directory tree of the database ("path:size")
+//!   Wipe    {}                      the driver itself removed the database directory (nothing
+//!                                   is open, nothing is pending): clean slate
+//!   Hang    {c, t, op, what}        a call did not return within the deadline
+//!   End     {}                      last line of every file
+//!
+//! `h` is the id of the handle a call creates (open), drops (close) or uses (probe); 0 for
+//! destroy.  A probe writes the fresh key `k` with value `k` through handle `h`, reads it back
+//! (`got`: k = right value, 0 = not found, -1 = error, -2 = other value) and re-reads the
+//! previous keys `lo..k-1` (`vals`, same coding).  `lockerr` says whether the error text of a
+//! failed call is the operating system's "lock is held" error.
+//!
+//! Scenarios of one run: (a) sequential scripts = call sequences of three agents, i.e. the
+//! behaviours of RainLock in which calls do not overlap; (c) forced schedules ("gated"): a call is
+//! parked inside a filesystem call or the `Closing` hook while other calls run, which replays the
+//! interesting interleavings of RainLock (and the counterexample of Bug_UnlinkLockAfterRelease)
+//! deterministically; (b) barrier-released real races.
 
+use parking_lot::{Condvar, Mutex};
+use raindb::fs::{
+    FileLock, FileSystem, OsFileSystem, RandomAccessFile, ReadonlyRandomAccessFile, TmpFileSystem,
+};
+use raindb::verif::{Observer, Val};
+use raindb::{DbOptions, RainDBError, ReadOptions, WriteOptions, DB};
+use rand::rngs::StdRng;
+use rand::seq::SliceRandom;
+use rand::{Rng, SeedableRng};
+use serde_json::{json, Map, Value};
 use std::collections::HashMap;
+use std::path::{Path, PathBuf};
+use std::sync::atomic::{AtomicBool, AtomicI64, AtomicU64, Ordering};
+use std::sync::{Arc, Barrier};
+use std::time::{Duration, Instant};
 
-pub fn cmd(_m: &HashMap<String, String>) -> i32 {
-    eprintln!("lockfmt driver not implemented yet");
-    2
+// ---------------------------------------------------------------------------------------------
+// the event log
+// ---------------------------------------------------------------------------------------------
+
+struct Log {
+    st: Mutex<(u64, Vec<Value>)>,
+}
+
+impl Log {
+    fn new() -> Arc<Log> {
+        Arc::new(Log {
+            st: Mutex::new((1, vec![])),
+        })
+    }
+
+    fn emit(&self, name: &str, v: Value) -> u64 {
+        let mut m = match v {
+            Value::Object(m) => m,
+            _ => Map::new(),
+        };
+        let mut st = self.st.lock();
+        let i = st.0;
+        st.0 += 1;
+        m.insert("e".into(), json!(name));
+        m.insert("i".into(), json!(i));
+        st.1.push(Value::Object(m));
+        i
+    }
+
+    fn snapshot(&self) -> Vec<Value> {
+        self.st.lock().1.clone()
+    }
+
+    fn len(&self) -> usize {
+        self.st.lock().1.len()
+    }
+}
+
+// ---------------------------------------------------------------------------------------------
+// watchdog over many concurrent calls
+// ---------------------------------------------------------------------------------------------
+
+struct CallDog {
+    calls: Mutex<HashMap<u64, (Instant, String, String, String)>>,
+    stop: AtomicBool,
+}
+
+impl CallDog {
+    fn start(
+        deadline: Duration,
+        on_hang: Box<dyn Fn(u64, String, String, String) + Send + Sync>,
+    ) -> Arc<CallDog> {
+        let d = Arc::new(CallDog {
+            calls: Mutex::new(HashMap::new()),
+            stop: AtomicBool::new(false),
+        });
+        let d2 = Arc::clone(&d);
+        std::thread::Builder::new()
+            .name("watchdog".into())
+            .spawn(move || loop {
+                std::thread::sleep(Duration::from_millis(50));
+                if d2.stop.load(Ordering::Relaxed) {
+                    return;
+                }
+                let late = {
+                    let calls = d2.calls.lock();
+                    calls
+                        .iter()
+                        .filter(|(_, v)| v.0.elapsed() > deadline)
+                        .map(|(c, v)| (*c, v.1.clone(), v.2.clone(), v.3.clone()))
+                        .min_by_key(|x| x.0)
+                };
+                if let Some((c, t, op, what)) = late {
+                    on_hang(c, t, op, what);
+                    return;
+                }
+            })
+            .unwrap();
+        d
+    }
+
+    fn enter(&self, c: u64, t: &str, op: &str, what: String) {
+        self.calls
+            .lock()
+            .insert(c, (Instant::now(), t.to_string(), op.to_string(), what));
+    }
+
+    fn leave(&self, c: u64) {
+        self.calls.lock().remove(&c);
+    }
+}
+
+// ---------------------------------------------------------------------------------------------
+// gates: park a named thread at a named point (forced schedules)
+// ---------------------------------------------------------------------------------------------
+
+struct Slot {
+    point: &'static str,
+    reached: bool,
+    open: bool,
+}
+
+pub struct Gates {
+    st: Mutex<HashMap<String, Slot>>,
+    cv: Condvar,
+}
+
+impl Gates {
+    fn new() -> Arc<Gates> {
+        Arc::new(Gates {
+            st: Mutex::new(HashMap::new()),
+            cv: Condvar::new(),
+        })
+    }
+
+    /// The thread called `thread` will stop the first time it passes `point`.
+    fn arm(&self, thread: &str, point: &'static str) {
+        self.st.lock().insert(
+            thread.to_string(),
+            Slot {
+                point,
+                reached: false,
+                open: false,
+            },
+        );
+    }
+
+    /// Called at an instrumented point by whatever thread gets there.
+    fn pass(&self, point: &'static str) {
+        let cur = std::thread::current();
+        let me = match cur.name() {
+            Some(n) => n.to_string(),
+            None => return,
+        };
+        let mut st = self.st.lock();
+        match st.get_mut(&me) {
+            Some(s) if s.point == point && !s.reached => {
+                s.reached = true;
+            }
+            _ => return,
+        }
+        self.cv.notify_all();
+        while !st.get(&me).map(|s| s.open).unwrap_or(true) {
+            self.cv.wait(&mut st);
+        }
+        st.remove(&me);
+    }
+
+    /// Wait until the thread is parked; false if it finished (or timed out) without parking.
+    fn wait_parked(&self, thread: &str, done: &AtomicBool, timeout: Duration) -> bool {
+        let t0 = Instant::now();
+        let mut st = self.st.lock();
+        loop {
+            if st.get(thread).map(|s| s.reached).unwrap_or(false) {
+                return true;
+            }
+            if done.load(Ordering::SeqCst) || t0.elapsed() > timeout {
+                st.remove(thread);
+                return false;
+            }
+            self.cv.wait_for(&mut st, Duration::from_millis(2));
+        }
+    }
+
+    fn release(&self, thread: &str) {
+        let mut st = self.st.lock();
+        if let Some(s) = st.get_mut(thread) {
+            s.open = true;
+        }
+        self.cv.notify_all();
+    }
+}
+
+/// Pass-through filesystem: every operation is the inner disk-backed filesystem's; the two
+/// lock-relevant operations are gate points.
+pub struct GateFs {
+    inner: Arc<dyn FileSystem>,
+    gates: Arc<Gates>,
+}
+
+impl FileSystem for GateFs {
+    fn get_name(&self) -> String {
+        self.inner.get_name()
+    }
+    fn create_dir(&self, path: &Path) -> std::io::Result<()> {
+        self.inner.create_dir(path)
+    }
+    fn create_dir_all(&self, path: &Path) -> std::io::Result<()> {
+        self.inner.create_dir_all(path)
+    }
+    fn list_dir(&self, path: &Path) -> std::io::Result<Vec<PathBuf>> {
+        self.inner.list_dir(path)
+    }
+    fn open_file(&self, path: &Path) -> std::io::Result<Box<dyn ReadonlyRandomAccessFile>> {
+        self.inner.open_file(path)
+    }
+    fn rename(&self, from: &Path, to: &Path) -> std::io::Result<()> {
+        self.inner.rename(from, to)
+    }
+    fn create_file(&self, path: &Path, append: bool) -> std::io::Result<Box<dyn RandomAccessFile>> {
+        self.inner.create_file(path, append)
+    }
+    fn remove_file(&self, path: &Path) -> std::io::Result<()> {
+        if path.file_name().map(|n| n == "LOCK").unwrap_or(false) {
+            self.gates.pass("remove_lock");
+        }
+        self.inner.remove_file(path)
+    }
+    fn remove_dir(&self, path: &Path) -> std::io::Result<()> {
+        self.inner.remove_dir(path)
+    }
+    fn remove_dir_all(&self, path: &Path) -> std::io::Result<()> {
+        self.inner.remove_dir_all(path)
+    }
+    fn get_file_size(&self, path: &Path) -> std::io::Result<u64> {
+        self.inner.get_file_size(path)
+    }
+    fn is_dir(&self, path: &Path) -> std::io::Result<bool> {
+        self.inner.is_dir(path)
+    }
+    fn lock_file(&self, path: &Path) -> std::io::Result<FileLock> {
+        self.gates.pass("lock_file");
+        self.inner.lock_file(path)
+    }
+}
+
+/// Observer of the database's hooks: only used to park the closing thread at the `Closing` hook
+/// (start of `Drop for DB`, before the wait for background work and before the lock release).
+struct GateObserver {
+    gates: Arc<Gates>,
+}
+
+impl Observer for GateObserver {
+    fn event(&self, name: &'static str, _fields: Vec<(&'static str, Val)>) {
+        if name == "Closing" {
+            self.gates.pass("closing");
+        }
+    }
+}
+
+// ---------------------------------------------------------------------------------------------
+// one run
+// ---------------------------------------------------------------------------------------------
+
+struct Ctx {
+    log: Arc<Log>,
+    dog: Arc<CallDog>,
+    gates: Arc<Gates>,
+    fs: Arc<dyn FileSystem>,
+    db_path: String,
+    real_root: PathBuf,
+    small_mem: bool,
+    seed: u64,
+    next_call: AtomicU64,
+    next_handle: AtomicI64,
+    next_key: AtomicI64,
+}
+
+const WINDOW: i64 = 6;
+
+fn is_lock_err(e: &str) -> bool {
+    e.contains("temporarily unavailable")
+        || e.contains("os error 11")
+        || e.contains("WouldBlock")
+        || e.contains("would block")
+}
+
+impl Ctx {
+    fn options(&self) -> DbOptions {
+        let mut o = DbOptions {
+            db_path: self.db_path.clone(),
+            create_if_missing: true,
+            error_if_exists: false,
+            filesystem_provider: Arc::clone(&self.fs),
+            ..DbOptions::default()
+        };
+        if self.small_mem {
+            o.max_memtable_size = 1024;
+        }
+        o
+    }
+
+    fn new_call(&self) -> u64 {
+        self.next_call.fetch_add(1, Ordering::SeqCst)
+    }
+
+    fn new_handle(&self) -> i64 {
+        self.next_handle.fetch_add(1, Ordering::SeqCst)
+    }
+
+    fn ret(&self, c: u64, t: &str, op: &str, h: i64, ok: bool, err: &str, probe: Option<(i64, i64, Vec<i64>)>) {
+        let (got, lo, vals) = probe.unwrap_or((0, 0, vec![]));
+        let mut e = err.to_string();
+        e.truncate(160);
+        self.log.emit(
+            "Ret",
+            json!({"c": c, "t": t, "op": op, "h": h, "ok": ok, "lockerr": !ok && is_lock_err(err),
+                   "err": e, "got": got, "lo": lo, "vals": vals}),
+        );
+    }
+
+    fn open(&self, c: u64, t: &str, h: i64) -> Option<DB> {
+        self.log
+            .emit("Call", json!({"c": c, "t": t, "op": "open", "h": h, "k": 0}));
+        self.dog.enter(c, t, "open", format!("open handle {}", h));
+        let r = DB::open(self.options());
+        self.dog.leave(c);
+        match r {
+            Ok(db) => {
+                self.ret(c, t, "open", h, true, "", None);
+                Some(db)
+            }
+            Err(e) => {
+                self.ret(c, t, "open", h, false, &e.to_string(), None);
+                None
+            }
+        }
+    }
+
+    fn close(&self, c: u64, t: &str, h: i64, db: DB) {
+        self.log
+            .emit("Call", json!({"c": c, "t": t, "op": "close", "h": h, "k": 0}));
+        self.dog.enter(c, t, "close", format!("drop handle {}", h));
+        drop(db);
+        self.dog.leave(c);
+        self.ret(c, t, "close", h, true, "", None);
+    }
+
+    fn destroy(&self, c: u64, t: &str) -> bool {
+        self.log
+            .emit("Call", json!({"c": c, "t": t, "op": "destroy", "h": 0, "k": 0}));
+        self.dog.enter(c, t, "destroy", "destroy_database".to_string());
+        let r = DB::destroy_database(self.options());
+        self.dog.leave(c);
+        match r {
+            Ok(()) => {
+                self.ret(c, t, "destroy", 0, true, "", None);
+                true
+            }
+            Err(e) => {
+                self.ret(c, t, "destroy", 0, false, &e.to_string(), None);
+                false
+            }
+        }
+    }
+
+    fn key(k: i64) -> Vec<u8> {
+        format!("pk{:07}", k).into_bytes()
+    }
+
+    fn val(&self, k: i64) -> Vec<u8> {
+        let mut v = format!("v{}-{}", k, self.seed).into_bytes();
+        if self.small_mem {
+            v.resize(260, b'.');
+        }
+        v
+    }
+
+    fn read(&self, db: &DB, k: i64) -> (i64, Option<String>) {
+        let ro = ReadOptions {
+            fill_cache: true,
+            snapshot: None,
+        };
+        match db.get(ro, &Ctx::key(k)) {
+            Ok(v) if v == self.val(k) => (k, None),
+            Ok(_) => (-2, None),
+            Err(RainDBError::KeyNotFound) => (0, None),
+            Err(e) => (-1, Some(e.to_string())),
+        }
+    }
+
+    /// put a fresh key through the handle, read it back, re-read the previous few keys
+    fn probe(&self, t: &str, h: i64, db: &DB) {
+        let c = self.new_call();
+        let k = self.next_key.fetch_add(1, Ordering::SeqCst);
+        self.log
+            .emit("Call", json!({"c": c, "t": t, "op": "probe", "h": h, "k": k}));
+        self.dog.enter(c, t, "probe", format!("put/get key {} via handle {}", k, h));
+        let mut err = String::new();
+        let mut ok = true;
+        if let Err(e) = db.put(WriteOptions::default(), Ctx::key(k), self.val(k)) {
+            ok = false;
+            err = e.to_string();
+        }
+        let (got, e) = self.read(db, k);
+        if let Some(e) = e {
+            ok = false;
+            err = e;
+        }
+        let lo = std::cmp::max(1, k - WINDOW);
+        let mut vals = vec![];
+        for j in lo..k {
+            let (v, e) = self.read(db, j);
+            if let Some(e) = e {
+                ok = false;
+                err = e;
+            }
+            vals.push(v);
+        }
+        self.dog.leave(c);
+        self.ret(c, t, "probe", h, ok, &err, Some((got, lo, vals)));
+    }
+
+    fn listing(&self) {
+        fn walk(root: &Path, dir: &Path, out: &mut Vec<String>) {
+            let rd = match std::fs::read_dir(dir) {
+                Ok(r) => r,
+                Err(_) => return,
+            };
+            for e in rd.flatten() {
+                let p = e.path();
+                let rel = p.strip_prefix(root).unwrap_or(&p).to_string_lossy().to_string();
+                match e.metadata() {
+                    Ok(m) if m.is_dir() => {
+                        out.push(format!("{}/", rel));
+                        walk(root, &p, out);
+                    }
+                    Ok(m) => out.push(format!("{}:{}", rel, m.len())),
+                    Err(_) => {}
+                }
+            }
+        }
+        let mut files = vec![];
+        walk(&self.real_root, &self.real_root, &mut files);
+        files.sort();
+        self.log.emit("Listing", json!({"files": files}));
+    }
+}
+
+enum Job<'a> {
+    Open(i64),
+    Close(i64, DB),
+    Destroy,
+    Probe(i64, &'a DB, usize),
+}
+
+enum Outcome {
+    Opened(i64, DB),
+    Nothing,
+}
+
+struct Run {
+    ctx: Arc<Ctx>,
+    rng: StdRng,
+    /// handles this driver currently holds: (handle id, database)
+    held: Vec<(i64, DB)>,
+    rounds: u64,
+    /// calls currently parked at a gate: thread name -> (call id, pre, point)
+    parked: HashMap<String, (u64, bool, &'static str)>,
+}
+
+fn spin(ns: u64) {
+    let t0 = Instant::now();
+    while (t0.elapsed().as_nanos() as u64) < ns {
+        std::hint::spin_loop();
+    }
+}
+
+impl Run {
+    fn round(&mut self, kind: &str) {
+        self.rounds += 1;
+        self.ctx
+            .log
+            .emit("Round", json!({"n": self.rounds, "kind": kind}));
+    }
+
+    // ---- sequential calls on the main thread
+
+    fn seq_open(&mut self) -> bool {
+        let c = self.ctx.new_call();
+        let h = self.ctx.new_handle();
+        match self.ctx.open(c, "main", h) {
+            Some(db) => {
+                self.held.push((h, db));
+                true
+            }
+            None => false,
+        }
+    }
+
+    fn seq_close_at(&mut self, idx: usize) {
+        let (h, db) = self.held.remove(idx);
+        let c = self.ctx.new_call();
+        self.ctx.close(c, "main", h, db);
+    }
+
+    fn seq_close_all(&mut self) {
+        while !self.held.is_empty() {
+            let n = self.held.len();
+            self.seq_close_at(n - 1);
+        }
+    }
+
+    fn seq_destroy(&mut self) -> bool {
+        let c = self.ctx.new_call();
+        self.ctx.destroy(c, "main")
+    }
+
+    fn probe_all(&mut self) {
+        for (h, db) in &self.held {
+            self.ctx.probe("main", *h, db);
+        }
+    }
+
+    fn listing(&mut self) {
+        if !self.ctx.small_mem {
+            self.ctx.listing();
+        }
+    }
+
+    /// Clean slate: close what is held, destroy, and remove the directory by hand.  Every round in
+    /// which a destroy ran concurrently with opens ends like this, so that whatever such a round
+    /// did to the directory cannot leak into the following rounds.
+    fn cleanup(&mut self) {
+        self.seq_close_all();
+        self.seq_destroy();
+        let _ = std::fs::remove_dir_all(&self.ctx.real_root);
+        self.ctx.log.emit("Wipe", json!({}));
+    }
+
+    fn ensure_owner(&mut self) {
+        if self.held.is_empty() {
+            self.seq_open();
+            self.probe_all();
+        }
+    }
+
+    /// One failed-intruder episode against whoever holds the database now.
+    fn intruders(&mut self) {
+        if self.held.is_empty() {
+            return;
+        }
+        self.listing();
+        let first_open = self.rng.gen_bool(0.5);
+        for step in 0..2 {
+            if (step == 0) == first_open {
+                self.seq_open();
+            } else {
+                self.seq_destroy();
+            }
+            self.listing();
+            self.probe_all();
+        }
+    }
+
+    // ---- (a) sequential scripts: three agents, each holding at most one handle
+
+    fn script(&mut self, steps: &[(usize, u8)]) {
+        // agents own entries of `held` by handle id
+        let mut agent: [Option<i64>; 3] = [None, None, None];
+        for &(a, op) in steps {
+            match op {
+                0 => {
+                    // open / close depending on the agent's state
+                    if let Some(h) = agent[a] {
+                        if let Some(idx) = self.held.iter().position(|x| x.0 == h) {
+                            self.seq_close_at(idx);
+                        }
+                        agent[a] = None;
+                    } else {
+                        let had = !self.held.is_empty();
+                        if had {
+                            self.listing();
+                        }
+                        let before = self.held.len();
+                        if self.seq_open() {
+                            agent[a] = Some(self.held[before].0);
+                        }
+                        if had {
+                            self.listing();
+                        }
+                        self.probe_all();
+                    }
+                }
+                _ => {
+                    let had = !self.held.is_empty();
+                    if had {
+                        self.listing();
+                    }
+                    self.seq_destroy();
+                    if had {
+                        self.listing();
+                    }
+                    self.probe_all();
+                }
+            }
+        }
+        self.seq_close_all();
+    }
+
+    fn canonical_script(&mut self) {
+        self.round("script-canonical");
+        // open A; open B fails; destroy fails; probe A; close A; open B succeeds; open A fails;
+        // close B; destroy succeeds; open C succeeds (fresh); destroy fails; close C
+        let s: Vec<(usize, u8)> = vec![
+            (0, 0),
+            (1, 0),
+            (2, 1),
+            (0, 0),
+            (1, 0),
+            (0, 0),
+            (1, 0),
+            (2, 1),
+            (2, 0),
+            (0, 1),
+            (2, 0),
+        ];
+        self.script(&s);
+    }
+
+    fn random_script(&mut self) {
+        self.round("script-random");
+        let n = self.rng.gen_range(3..=10);
+        let mut s = vec![];
+        for _ in 0..n {
+            let a = self.rng.gen_range(0..3);
+            let op = if self.rng.gen_range(0..100) < 72 { 0 } else { 1 };
+            s.push((a, op));
+        }
+        self.script(&s);
+    }
+
+    // ---- (b) real races
+
+    fn race(&mut self, jobs: Vec<Job>) -> Vec<(i64, DB)> {
+        let n = jobs.len();
+        let barrier = Barrier::new(n);
+        let jit: Vec<u64> = (0..n)
+            .map(|_| match self.rng.gen_range(0..4) {
+                0 => 0,
+                1 => self.rng.gen_range(0..2_000),
+                2 => self.rng.gen_range(0..40_000),
+                _ => self.rng.gen_range(0..400_000),
+            })
+            .collect();
+        let ctx = &self.ctx;
+        let mut won = vec![];
+        std::thread::scope(|s| {
+            let mut hs = vec![];
+            for (i, job) in jobs.into_iter().enumerate() {
+                let barrier = &barrier;
+                let delay = jit[i];
+                let name = format!("t{}", i + 1);
+                let t = name.clone();
+                let c = ctx.new_call();
+                hs.push(
+                    std::thread::Builder::new()
+                        .name(name)
+                        .spawn_scoped(s, move || {
+                            barrier.wait();
+                            spin(delay);
+                            match job {
+                                Job::Open(h) => match ctx.open(c, &t, h) {
+                                    Some(db) => Outcome::Opened(h, db),
+                                    None => Outcome::Nothing,
+                                },
+                                Job::Close(h, db) => {
+                                    ctx.close(c, &t, h, db);
+                                    Outcome::Nothing
+                                }
+                                Job::Destroy => {
+                                    ctx.destroy(c, &t);
+                                    Outcome::Nothing
+                                }
+                                Job::Probe(h, db, times) => {
+                                    for _ in 0..times {
+                                        ctx.probe(&t, h, db);
+                                    }
+                                    Outcome::Nothing
+                                }
+                            }
+                        })
+                        .unwrap(),
+                );
+            }
+            for h in hs {
+                if let Ok(Outcome::Opened(h, db)) = h.join() {
+                    won.push((h, db));
+                }
+            }
+        });
+        won
+    }
+
+    fn busy_owner(&mut self) {
+        // with the small memtable a few probes rotate the memtable: background work is scheduled
+        // when the handle is dropped
+        if self.ctx.small_mem {
+            for _ in 0..self.rng.gen_range(3..=5) {
+                self.probe_all();
+            }
+        }
+    }
+
+    fn race_round(&mut self) {
+        if self.held.len() > 1 {
+            self.round("cleanup");
+            self.cleanup();
+        }
+        let mut mixed = false;
+        let kind = self.rng.gen_range(0..100);
+        if kind < 30 {
+            // N opens after a close
+            self.round("race-opens-after-close");
+            if self.rng.gen_bool(0.7) {
+                self.ensure_owner();
+                self.busy_owner();
+            }
+            self.seq_close_all();
+            let n = self.rng.gen_range(2..=4);
+            let jobs = (0..n).map(|_| Job::Open(self.ctx.new_handle())).collect();
+            let won = self.race(jobs);
+            self.held.extend(won);
+        } else if kind < 55 {
+            // opens racing with the close of the owner
+            self.round("race-open-vs-close");
+            self.seq_close_all_but_one();
+            self.ensure_owner();
+            self.busy_owner();
+            let (h, db) = self.held.remove(0);
+            let mut jobs = vec![Job::Close(h, db)];
+            for _ in 0..self.rng.gen_range(1..=3) {
+                if self.rng.gen_range(0..5) == 0 {
+                    jobs.push(Job::Destroy);
+                } else {
+                    jobs.push(Job::Open(self.ctx.new_handle()));
+                }
+            }
+            jobs.shuffle(&mut self.rng);
+            mixed = jobs.iter().any(|j| matches!(j, Job::Destroy));
+            let won = self.race(jobs);
+            self.held.extend(won);
+        } else if kind < 80 {
+            // destroy racing with opens, nobody has the database open
+            self.round("race-destroy-vs-open");
+            if self.rng.gen_bool(0.8) {
+                self.ensure_owner();
+            }
+            self.seq_close_all();
+            let mut jobs = vec![Job::Destroy];
+            for _ in 0..self.rng.gen_range(1..=3) {
+                jobs.push(Job::Open(self.ctx.new_handle()));
+            }
+            if self.rng.gen_range(0..4) == 0 {
+                jobs.push(Job::Destroy);
+            }
+            jobs.shuffle(&mut self.rng);
+            mixed = true;
+            let won = self.race(jobs);
+            self.held.extend(won);
+        } else {
+            // intruders racing against a steady owner that keeps writing
+            self.round("race-intruders-vs-owner");
+            self.seq_close_all_but_one();
+            self.ensure_owner();
+            if self.held.is_empty() {
+                return;
+            }
+            let (h, db) = self.held.remove(0);
+            let won = {
+                let mut jobs = vec![Job::Probe(h, &db, self.rng.gen_range(1..=4))];
+                for _ in 0..self.rng.gen_range(1..=3) {
+                    if self.rng.gen_bool(0.5) {
+                        jobs.push(Job::Destroy);
+                    } else {
+                        jobs.push(Job::Open(self.ctx.new_handle()));
+                    }
+                }
+                mixed = jobs.iter().any(|j| matches!(j, Job::Destroy))
+                    && jobs.iter().any(|j| matches!(j, Job::Open(_)));
+                self.race(jobs)
+            };
+            self.held.push((h, db));
+            self.held.extend(won);
+        }
+        // whoever holds the database now: probe, attack with sequential intruders, probe
+        self.probe_all();
+        self.intruders();
+        if mixed {
+            self.cleanup();
+        }
+    }
+
+    fn seq_close_all_but_one(&mut self) {
+        while self.held.len() > 1 {
+            let n = self.held.len();
+            self.seq_close_at(n - 1);
+        }
+    }
+
+    // ---- (c) forced schedules
+
+    /// Run `job` on a thread called `name` that parks at `point`; returns after it is parked (or
+    /// finished without getting there).  `then` runs while it is parked.
+    fn gated<F: FnOnce(&mut Run)>(&mut self, name: &str, point: &'static str, pre: bool, job: Job, then: F) {
+        let ctx = Arc::clone(&self.ctx);
+        ctx.gates.arm(name, point);
+        let done = AtomicBool::new(false);
+        let c = ctx.new_call();
+        let mut won: Vec<(i64, DB)> = vec![];
+        std::thread::scope(|s| {
+            let done = &done;
+            let ctx2 = &ctx;
+            let t = name.to_string();
+            let th = std::thread::Builder::new()
+                .name(name.to_string())
+                .spawn_scoped(s, move || {
+                    let r = match job {
+                        Job::Open(h) => match ctx2.open(c, &t, h) {
+                            Some(db) => Outcome::Opened(h, db),
+                            None => Outcome::Nothing,
+                        },
+                        Job::Close(h, db) => {
+                            ctx2.close(c, &t, h, db);
+                            Outcome::Nothing
+                        }
+                        Job::Destroy => {
+                            ctx2.destroy(c, &t);
+                            Outcome::Nothing
+                        }
+                        Job::Probe(..) => Outcome::Nothing,
+                    };
+                    done.store(true, Ordering::SeqCst);
+                    r
+                })
+                .unwrap();
+            if ctx.gates.wait_parked(name, done, Duration::from_secs(10)) {
+                ctx.log
+                    .emit("Gate", json!({"c": c, "held": true, "pre": pre, "point": point}));
+                self.parked.insert(name.to_string(), (c, pre, point));
+            }
+            then(self);
+            self.ungate(name);
+            if let Ok(Outcome::Opened(h, db)) = th.join() {
+                won.push((h, db));
+            }
+        });
+        self.held.extend(won);
+    }
+
+    /// Let a parked call go on; the event is logged BEFORE the thread is released.
+    fn ungate(&mut self, name: &str) {
+        if let Some((c, pre, point)) = self.parked.remove(name) {
+            self.ctx
+                .log
+                .emit("Gate", json!({"c": c, "held": false, "pre": pre, "point": point}));
+            self.ctx.gates.release(name);
+        }
+    }
+
+    fn gated_round(&mut self, which: usize) {
+        if self.held.len() > 1 {
+            self.round("cleanup");
+            self.cleanup();
+        }
+        match which {
+            0 => {
+                // destroy parked after it released the lock, before it unlinks LOCK; a first open
+                // now, a second open after destroy has finished
+                self.round("gate-destroy-unlink");
+                self.ensure_owner();
+                self.seq_close_all();
+                self.gated("g1", "remove_lock", false, Job::Destroy, |r| {
+                    r.seq_open();
+                    r.probe_all();
+                });
+                self.probe_all();
+                self.seq_open();
+                self.probe_all();
+                self.seq_destroy();
+                self.probe_all();
+                self.intruders();
+                self.cleanup();
+                return;
+            }
+            1 => {
+                // the owner's drop parked at its very beginning: intruders must still fail
+                self.round("gate-close-begin");
+                self.seq_close_all_but_one();
+                self.ensure_owner();
+                self.busy_owner();
+                if self.held.is_empty() {
+                    return;
+                }
+                let (h, db) = self.held.remove(0);
+                self.gated("g2", "closing", true, Job::Close(h, db), |r| {
+                    r.seq_open();
+                    r.seq_destroy();
+                    r.seq_open();
+                });
+                self.seq_open();
+                self.probe_all();
+            }
+            2 => {
+                // an open parked just before it asks for the lock; meanwhile another open wins
+                self.round("gate-open-before-lock");
+                self.seq_close_all();
+                let h = self.ctx.new_handle();
+                self.gated("g3", "lock_file", true, Job::Open(h), |r| {
+                    r.seq_open();
+                    r.probe_all();
+                    r.listing();
+                });
+                self.listing();
+                self.probe_all();
+            }
+            3 => {
+                // a destroy parked just before it asks for the lock; meanwhile an open wins
+                self.round("gate-destroy-before-lock");
+                self.ensure_owner();
+                self.seq_close_all();
+                self.gated("g4", "lock_file", true, Job::Destroy, |r| {
+                    r.seq_open();
+                    r.probe_all();
+                    r.listing();
+                });
+                self.listing();
+                self.probe_all();
+                self.intruders();
+                self.cleanup();
+                return;
+            }
+            _ => {
+                // an open that has finished its pre-lock work is parked; a destroy runs up to the
+                // unlink of LOCK; the open continues; the destroy continues
+                self.round("gate-open-inside-destroy");
+                self.ensure_owner();
+                self.seq_close_all();
+                let h = self.ctx.new_handle();
+                self.gated("g5", "lock_file", true, Job::Open(h), |r| {
+                    r.gated("g6", "remove_lock", false, Job::Destroy, |r2| {
+                        r2.ungate("g5");
+                        // give the open time to run to its end while the destroy is parked
+                        let t0 = Instant::now();
+                        while t0.elapsed() < Duration::from_millis(30) {
+                            std::thread::sleep(Duration::from_millis(1));
+                        }
+                    });
+                });
+                self.probe_all();
+                self.seq_open();
+                self.probe_all();
+                self.intruders();
+                self.cleanup();
+                return;
+            }
+        }
+        self.intruders();
+    }
+}
+
+// ---------------------------------------------------------------------------------------------
+// command
+// ---------------------------------------------------------------------------------------------
+
+fn end_line() -> Value {
+    json!({"e": "End", "i": 0})
+}
+
+pub fn cmd(m: &HashMap<String, String>) -> i32 {
+    let out = PathBuf::from(
+        m.get("out")
+            .cloned()
+            .unwrap_or_else(|| "/verif/out/c17/run".into()),
+    );
+    std::fs::create_dir_all(&out).unwrap();
+    let out = out.canonicalize().unwrap();
+    let mut seed0: u64 = crate::arg_of(m, "seed", 1);
+    let mut runs: u64 = crate::arg_of(m, "runs", 2);
+    let mut rounds: u64 = crate::arg_of(m, "rounds", 30);
+    let mut scripts: u64 = crate::arg_of(m, "scripts", 6);
+    let mut gates: u64 = crate::arg_of(m, "gates", 1);
+    let per_file: u64 = crate::arg_of(m, "per-file", 2);
+    let deadline = Duration::from_secs(crate::arg_of(m, "deadline", 30));
+    let mut fs_kind: String = crate::arg_of(m, "fs", "mixed".to_string());
+    let mut script_arg: Option<String> = m.get("script").cloned();
+    if let Some(p) = m.get("replay") {
+        let rp: Value = serde_json::from_str(&std::fs::read_to_string(p).expect("replay file")).unwrap();
+        seed0 = rp["seed"].as_u64().unwrap_or(seed0);
+        runs = 1;
+        rounds = rp["rounds"].as_u64().unwrap_or(rounds);
+        scripts = rp["scripts"].as_u64().unwrap_or(scripts);
+        gates = rp["gates"].as_u64().unwrap_or(gates);
+        fs_kind = rp["fs"].as_str().unwrap_or("mixed").to_string();
+        if let Some(t) = rp["script"].as_str() {
+            if !t.is_empty() {
+                script_arg = Some(t.to_string());
+            }
+        }
+    }
+    let dbs = out.join("dbs");
+    std::fs::create_dir_all(&dbs).unwrap();
+
+    let results: Arc<Mutex<Vec<Value>>> = Arc::new(Mutex::new(vec![]));
+    let mut chunk = 0u64;
+    let mut run_no = 0u64;
+    let mut seed = seed0;
+    while seed < seed0 + runs {
+        let log = Log::new();
+        let path = out.join(format!("trace_{:04}.ndjson", chunk));
+        let mut in_file = 0;
+        while seed < seed0 + runs && in_file < per_file {
+            in_file += 1;
+            run_no += 1;
+            let this_seed = seed;
+            seed += 1;
+            let mut rng = StdRng::seed_from_u64(this_seed.wrapping_mul(0x9E3779B97F4A7C15) ^ 0xC17);
+            let use_tmp = match fs_kind.as_str() {
+                "os" => false,
+                "tmp" => true,
+                _ => this_seed % 2 == 1,
+            };
+            let small_mem = rng.gen_bool(0.5);
+            let rpath = out.join(format!("replay_{}.json", this_seed));
+            let replay = json!({"driver": "lockfmt", "seed": this_seed, "rounds": rounds,
+                                "scripts": scripts, "gates": gates,
+                                "script": script_arg.clone().unwrap_or_default(),
+                                "fs": if use_tmp { "tmp" } else { "os" }});
+            std::fs::write(&rpath, serde_json::to_string(&replay).unwrap()).unwrap();
+
+            // the disk-backed filesystem under test, wrapped by the pass-through gate layer
+            let gatesv = Gates::new();
+            let mut tmp_keep: Option<Arc<TmpFileSystem>> = None;
+            let run_dir = dbs.join(format!("run{}", this_seed));
+            let _ = std::fs::remove_dir_all(&run_dir);
+            std::fs::create_dir_all(&run_dir).unwrap();
+            let (inner, db_path, real_root): (Arc<dyn FileSystem>, String, PathBuf) = if use_tmp {
+                let t = Arc::new(TmpFileSystem::new(Some(&run_dir)));
+                let root = t.get_root_path().join("db");
+                tmp_keep = Some(Arc::clone(&t));
+                (t, "db".to_string(), root)
+            } else {
+                let root = run_dir.join("db");
+                (
+                    Arc::new(OsFileSystem::new()),
+                    root.to_string_lossy().to_string(),
+                    root,
+                )
+            };
+            let fs: Arc<dyn FileSystem> = Arc::new(GateFs {
+                inner,
+                gates: Arc::clone(&gatesv),
+            });
+
+            // watchdog: on a hang write what there is and leave with code 3
+            let first_event = log.len();
+            let dog = {
+                let log2 = Arc::clone(&log);
+                let path2 = path.clone();
+                let out2 = out.clone();
+                let results2 = Arc::clone(&results);
+                let rpath2 = rpath.clone();
+                let dbs2 = dbs.clone();
+                CallDog::start(
+                    deadline,
+                    Box::new(move |c, t, op, what| {
+                        log2.emit("Hang", json!({"c": c, "t": t, "op": op, "what": what}));
+                        let mut lines = log2.snapshot();
+                        let n = lines.len();
+                        lines.push(end_line());
+                        let _ = crate::trace::write_ndjson(&path2, &lines);
+                        let mut res = results2.lock().clone();
+                        res.push(json!({"seed": this_seed, "status": "hang", "detail": what,
+                            "trace": path2.to_string_lossy(), "replay": rpath2.to_string_lossy(),
+                            "events": n - first_event, "rounds": 0}));
+                        let _ = std::fs::write(
+                            out2.join("results.json"),
+                            serde_json::to_string_pretty(&json!({"runs": res, "aborted": true})).unwrap(),
+                        );
+                        let _ = std::fs::remove_dir_all(&dbs2);
+                        std::process::exit(3);
+                    }),
+                )
+            };
+
+            let ctx = Arc::new(Ctx {
+                log: Arc::clone(&log),
+                dog: Arc::clone(&dog),
+                gates: Arc::clone(&gatesv),
+                fs,
+                db_path: db_path.clone(),
+                real_root,
+                small_mem,
+                seed: this_seed,
+                next_call: AtomicU64::new(1),
+                next_handle: AtomicI64::new(1),
+                next_key: AtomicI64::new(1),
+            });
+            raindb::verif::install(
+                &db_path,
+                Arc::new(GateObserver {
+                    gates: Arc::clone(&gatesv),
+                }),
+            );
+            let tag = format!(
+                "{}{}",
+                if use_tmp { "tmpfs" } else { "osfs" },
+                if small_mem { "+smallmem" } else { "" }
+            );
+            log.emit(
+                "Reset",
+                json!({"run": run_no, "seed": this_seed, "tag": tag, "nk": 0, "driver": "lockfmt"}),
+            );
+            let mut run = Run {
+                ctx: Arc::clone(&ctx),
+                rng,
+                held: vec![],
+                rounds: 0,
+                parked: HashMap::new(),
+            };
+            // (a) sequential scripts
+            if let Some(txt) = &script_arg {
+                // "--script 0o,1o,2d,0o": agent 0..2, o = open (or close if it holds a handle),
+                // d = destroy; e.g. a call sequence read off a TLC behaviour of RainLock
+                let steps: Vec<(usize, u8)> = txt
+                    .split(',')
+                    .filter_map(|t| {
+                        let t = t.trim();
+                        let a = t.chars().next()?.to_digit(10)? as usize;
+                        let op = if t.ends_with('d') { 1 } else { 0 };
+                        if a < 3 { Some((a, op)) } else { None }
+                    })
+                    .collect();
+                run.round("script-given");
+                run.script(&steps);
+            }
+            run.canonical_script();
+            for _ in 0..scripts {
+                run.random_script();
+            }
+            // (c) forced schedules, (b) races, interleaved
+            let mut plan: Vec<usize> = vec![];
+            for _ in 0..gates {
+                plan.extend(0..5usize);
+            }
+            let mut kinds: Vec<Option<usize>> = plan.into_iter().map(Some).collect();
+            kinds.extend((0..rounds).map(|_| None));
+            kinds.shuffle(&mut run.rng);
+            for k in kinds {
+                match k {
+                    Some(g) => run.gated_round(g),
+                    None => run.race_round(),
+                }
+            }
+            // leave: close everything; the final destroy must find the database unowned
+            run.round("final");
+            run.seq_close_all();
+            run.seq_destroy();
+            let nrounds = run.rounds;
+            drop(run);
+            dog.stop.store(true, Ordering::Relaxed);
+            raindb::verif::clear(&db_path);
+            drop(ctx);
+            drop(tmp_keep);
+            let _ = std::fs::remove_dir_all(&run_dir);
+            crate::common::take_panics();
+            results.lock().push(json!({"seed": this_seed, "status": "ok",
+                "trace": path.to_string_lossy(), "replay": rpath.to_string_lossy(),
+                "events": log.len() - first_event, "rounds": nrounds, "tag": tag}));
+        }
+        let mut lines = log.snapshot();
+        lines.push(end_line());
+        crate::trace::write_ndjson(&path, &lines).unwrap();
+        chunk += 1;
+    }
+    let _ = std::fs::remove_dir_all(&dbs);
+    let res = results.lock().clone();
+    std::fs::write(
+        out.join("results.json"),
+        serde_json::to_string_pretty(&json!({"runs": res, "aborted": false})).unwrap(),
+    )
+    .unwrap();
+    0
 }
